@@ -422,5 +422,9 @@ pub fn run(ctx: &Ctx) -> Report {
         }
     }
     let variant = ctx.variant.clone();
-    par_run(&cases, ctx.threads, |_, c, rep| check(c, &variant, rep))
+    let mut out = par_run(&cases, ctx.threads, |_, c, rep| check(c, &variant, rep));
+    if ctx.variant == "v3" && ctx.only_panel.as_deref().map(|p| p == "epd12in48b_v2").unwrap_or(true) {
+        crate::props::p12checks::c06(&mut out, ctx.tier_thorough, ctx.seed);
+    }
+    out
 }
